@@ -6,7 +6,7 @@
  * One operation per input line, exactly one output line per operation.
  *   L <opt> <hex>            fresh-state single call on the scratch instance:
  *                            opt = mov(0 strict,1 nasm,2 smart) + 4*swap + 8*nobase
- *                            -> "<rc> <offset> <hex of buffer up to last non-fill byte>"
+ *                            -> "<rc> <offset> <hex of buffer[0,offset)> <hex of dirty bytes behind it>"
  *   N <id> <len> <fill>      create instance on a caller buffer (len bytes, filled with
  *                            byte <fill>, guarded on both sides);  "N <id> -" = internal
  *   S <id> <setter> <val>    setter in mov sib swap nobase all
@@ -93,6 +93,10 @@ int main(void) {
     if (got == 0) continue;
     char *save = NULL;
     char *op = strtok_r(line, " ", &save);
+    if (op[0] == 'T' || op[0] == 'Y') { /* model-side table ops: nothing to do here */
+      puts("ok");
+      continue;
+    }
     if (op[0] == 'L') {
       int opt = atoi(strtok_r(NULL, " ", &save));
       char *txt = unhex(strtok_r(NULL, " ", &save));
@@ -103,10 +107,15 @@ int main(void) {
       asm_set_offset(scratch, 0);
       int rc = asm_assemble_str(scratch, txt);
       int off = asm_get_offset(scratch);
+      /* code = buffer[0, offset); then what the call left behind the final offset, up to
+         the last byte that differs from the 0xCC fill ("-" when nothing) */
+      long start = (rc == 0 && off >= 0 && off <= SCRATCH) ? off : 0;
       long last = SCRATCH;
-      while (last > 0 && b[last - 1] == 0xCC) last--;
+      while (last > start && b[last - 1] == 0xCC) last--;
       printf("%d %d ", rc, off);
-      puthex(b, last);
+      puthex(b, start);
+      putchar(' ');
+      puthex(b + start, last - start);
       printf("%s\n", guards_ok(scratch_raw, SCRATCH) ? "" : " GUARD-BAD");
       free(txt);
       continue;
